@@ -19,6 +19,24 @@ from ..index import walk_no_nested
 from ..report import Ctx
 
 
+def _module_state(ctx: Ctx, mb) -> dict:
+    """Fresh objects for the module-level containers of the mock module (literal dict/list/set displays and empty
+    constructors), so that state kept at module level is shared between the traces of one scenario."""
+    out = {}
+    for st in mb.module.tree.body:
+        tgt = st.targets[0] if isinstance(st, ast.Assign) and len(st.targets) == 1 else (st.target if isinstance(st, ast.AnnAssign) else None)
+        val = getattr(st, "value", None)
+        if not isinstance(tgt, ast.Name) or val is None:
+            continue
+        if isinstance(val, (ast.Dict, ast.List, ast.Set)) or ast.unparse(val) in ("dict()", "list()", "set()"):
+            try:
+                v = PyEval(ctx.idx, mb.module.name).ev(val, {}) if isinstance(val, (ast.Dict, ast.List, ast.Set)) else {"dict()": {}, "list()": [], "set()": set()}[ast.unparse(val)]
+            except (Unsupported, Raised):
+                continue
+            out[tgt.id] = v
+    return out
+
+
 def run(ctx: Ctx, mb) -> bool:
     """Returns False when the function is not in the evaluable shape (caller falls back to its shape rules)."""
     fn = mb.node
@@ -48,7 +66,7 @@ def run(ctx: Ctx, mb) -> bool:
             g = dict(init)
             f = Tok("f", __globals__=g, __ident__=1)
             ev = PyEval(ctx.idx, mb.module.name)
-            env = {fparam: f}
+            env = {fparam: f, **_module_state(ctx, mb), "id": lambda node, e, en: id(e.ev(node.args[0], en))}
             try:
                 r = ev.run(pre, env)
                 if r[0] != "fall":
@@ -70,6 +88,37 @@ def run(ctx: Ctx, mb) -> bool:
                 bad.append({"user_bindings": sorted(k for k in init if k != "other"), "exit": exit_kind,
                             "left_behind": sorted(k for k in g if k not in init), "lost": sorted(k for k in init if k not in g),
                             "changed": sorted(k for k in init if k in g and g[k] != init[k])})
+    # two traces in a row on the SAME module namespace, the user's bindings changing in between: module-level state of the
+    # mock module (memo tables) is shared between the two runs, `id(x)` is a stable key per object
+    shared_names = sorted(_module_state(ctx, mb))
+    seqs = [({}, {"len": "user_len"}), ({"len": "user_len"}, {}), ({"int": "user_int"}, {"int": "user_int2", "len": "user_len"})]
+    for first, second in seqs:
+        shared = _module_state(ctx, mb)
+        g = {"other": "user_other", **first}
+        f = Tok("f", __globals__=g, __ident__=1)
+        for step, binds in enumerate((first, second)):
+            n += 1
+            if step == 1:
+                for nm in names:
+                    g.pop(nm, None)
+                g.update(binds)
+            want = dict(g)
+            ev = PyEval(ctx.idx, mb.module.name)
+            env = {fparam: f, **shared, "id": lambda node, e, en: id(e.ev(node.args[0], en))}
+            try:
+                r = ev.run(pre, env)
+                r = ev.run(post_normal, env)
+            except Unsupported as e:
+                ctx.undecided("R-C23.1", key, mb.where, f"second-trace scenario: {e}")
+                return True
+            except Raised as e:
+                bad.append({"sequence": [sorted(first), sorted(second)], "trace": step + 1, "problem": f"raises {e}"})
+                break
+            if g != want:
+                bad.append({"sequence_of_user_bindings": [sorted(first), sorted(second)], "trace": step + 1, "module_level_state": shared_names,
+                            "left_behind": sorted(k for k in g if k not in want), "lost": sorted(k for k in want if k not in g),
+                            "changed": sorted(k for k in want if k in g and g[k] != want[k])})
+                break
     ctx.check(not bad, "R-C23.1", key, mb.where, {"namespaces_x_exits": n, "counterexamples": bad[:4]},
               "after comptime tracing the user's module namespace differs from before: a mock stays installed, a user binding of "
               "int/float/len is lost or replaced, or the restore itself fails")
